@@ -407,4 +407,64 @@ class ColumnsTrees(Part):
         ctx.cls("tree", "env-" + spec["env"])
 
 
-PARTS = [Frames(), Lines(), ColumnsTrees()]
+
+class BarGrid(Part):
+    name = "bar-grid"
+    custom = True
+    exhaustive = True
+    rule = ("Bar(size, begin, end) with fractional begin / end on a grid of sixteenths of a terminal cell: W 1..32 x every cell x every pair of sub-cell positions (both ends inside one "
+            "cell, or the end in the next cell) x size {1.0, 100, 7}: the bar is exactly W cells wide; non-trivial = both ends inside one cell")
+    budget = {"quick": (16, 1), "thorough": (16, 1)}
+
+    def run_shard(self, tier, shard, nshards, seed, stats, deadline, known):
+        from rich.bar import Bar
+        from ..core import Ctx
+
+        ctx = Ctx()
+        n = nt = 0
+        bad = None
+        for W in range(1, 33):
+            if (W - 1) % nshards != shard:
+                continue
+            con = make_console(W, "utf8", "truecolor", False)
+            for cell in range(W):
+                for f1 in range(0, 17):
+                    for f2 in range(f1, 33):
+                        for size in (1.0, 100, 7):
+                            begin = size * (cell + f1 / 16.0) / W
+                            end = size * (cell + f2 / 16.0) / W
+                            if end > size:
+                                continue
+                            lines = render_text_lines(con, sut(Bar, size, begin, end))
+                            n += 1
+                            if f2 <= 16:
+                                nt += 1
+                            if len(lines) != 1 or OC.width(lines[0]) != W:
+                                bad = {"W": W, "size": size, "begin": begin, "end": end}
+                                ctx.violation("bar", "C08/bar/grid", "Bar(%r, %r, %r) at W=%d rendered %r (%s cells)" % (size, begin, end, W, lines, [OC.width(l) for l in lines]))
+                                break
+                        if bad:
+                            break
+                    if bad:
+                        break
+                if bad:
+                    break
+            if bad:
+                break
+        stats.evaluations += n
+        stats.nontrivial_count_distinct += nt
+        stats.done += 1
+        stats.samples.append((1, {"shard": shard, "bars": n, "example": {"W": 40, "size": 100, "begin": 12.7, "end": 12.8}}, "range"))
+        for v in ctx.violations:
+            stats.found.setdefault(v.sig, {"spec": bad, "clause": v.clause, "detail": v.detail, "size": 1, "part": self.name})
+
+    def replay(self, spec, ctx):
+        from rich.bar import Bar
+
+        con = make_console(spec["W"], "utf8", "truecolor", False)
+        lines = render_text_lines(con, sut(Bar, spec["size"], spec["begin"], spec["end"]))
+        if len(lines) != 1 or OC.width(lines[0]) != spec["W"]:
+            ctx.violation("bar", "C08/bar/grid", "Bar(%r, %r, %r) at W=%d rendered %r" % (spec["size"], spec["begin"], spec["end"], spec["W"], lines))
+
+
+PARTS = [Frames(), Lines(), ColumnsTrees(), BarGrid()]
